@@ -1,6 +1,7 @@
 package c03
 
 import (
+	"context"
 	"fmt"
 	"math/rand/v2"
 	"runtime"
@@ -9,6 +10,7 @@ import (
 
 	"github.com/anishathalye/porcupine"
 	"github.com/platinummonkey/go-concurrency-limits/core"
+	"github.com/platinummonkey/go-concurrency-limits/strategy"
 
 	"verifharness/internal/lin"
 	"verifharness/internal/rt"
@@ -197,4 +199,142 @@ func concurrent(idx int64, r *rand.Rand) {
 		}
 		rt.Sample(rt.J{"mode": "concurrent", "config": desc, "goroutines": nG, "history_head": lines, "overlapping_pairs": ov})
 	}
+}
+
+// storm: concurrent limit changes (several setters) and dynamic partition additions racing with a limit change.
+// At quiescence every bin's share must be the share of the limit now in force - a SetLimit / AddPartition that
+// is not atomic with respect to the others leaves a bin on a superseded limit.
+func storm(idx int64, r *rand.Rand) {
+	e, desc := build(r)
+	check := func(when string, extra *part) bool {
+		lim := e.s().Limit()
+		for _, p := range e.m.Parts {
+			if p.Removed {
+				continue
+			}
+			var got int
+			if e.kind == "lookup" {
+				got = e.lparts[p].Limit()
+			} else {
+				got = e.pparts[p].Limit()
+			}
+			if want := shareExact(lim, p); got != want {
+				rt.Violation("C03/"+e.kind+"/bin-share-stale-after-concurrent-"+when, idx, rt.J{"config": desc, "partition": p.Name, "share": got,
+					"want": want, "limit_in_force": lim, "fraction": fmt.Sprintf("%d/%d", p.Num, p.Den)})
+				return false
+			}
+		}
+		rt.Count("storm_quiescent_share_checks", 1)
+		return true
+	}
+	pick := func(lr *rand.Rand) int {
+		for {
+			v := 1 + lr.IntN(60)
+			if !e.m.ambiguous(v) {
+				return v
+			}
+		}
+	}
+	// (1) several concurrent setters
+	nG := 2 + r.IntN(4)
+	seeds := make([]uint64, nG)
+	for i := range seeds {
+		seeds[i] = r.Uint64()
+	}
+	for round := 0; round < 20; round++ {
+		bar := lin.NewBarrier(nG)
+		var wg sync.WaitGroup
+		for g := 0; g < nG; g++ {
+			wg.Add(1)
+			go func(g int) {
+				defer wg.Done()
+				lr := rand.New(rand.NewPCG(seeds[g], uint64(round)))
+				bar.Wait()
+				for i := 0; i < 6; i++ {
+					e.s().SetLimit(pick(lr))
+				}
+			}(g)
+		}
+		wg.Wait()
+		if !check("SetLimit-calls", nil) {
+			return
+		}
+	}
+	// (2) AddPartition racing with a limit change
+	den := 100
+	used := 0
+	for _, p := range e.m.Parts {
+		den = p.Den
+		used += p.Num
+	}
+	room := den - used
+	if den == 100 {
+		room--
+	}
+	if room < 1 {
+		rt.Count("storm_cases", 1)
+		return
+	}
+	lr := rand.New(rand.NewPCG(seeds[0], 99))
+	for round := 0; round < 120; round++ {
+		np := &part{Name: "zz", Num: 1 + lr.IntN(room), Den: den}
+		cur := e.s().Limit()
+		next := pick(lr)
+		for next == cur || shareExact(next, np) != shareFloat(next, np) || shareExact(cur, np) != shareFloat(cur, np) {
+			next = pick(lr)
+			np.Num = 1 + lr.IntN(room)
+		}
+		bar := lin.NewBarrier(2)
+		var wg sync.WaitGroup
+		wg.Add(2)
+		if e.kind == "lookup" {
+			lp := strategy.NewLookupPartitionWithMetricRegistry("zz", np.frac(), 1, core.EmptyMetricRegistryInstance)
+			e.lparts[np] = lp
+			go func() { defer wg.Done(); bar.Wait(); e.look.AddPartition("zz", lp) }()
+		} else {
+			pp := strategy.NewPredicatePartitionWithMetricRegistry("zz", np.frac(), func(context.Context) bool { return false }, core.EmptyMetricRegistryInstance)
+			e.pparts[np] = pp
+			go func() { defer wg.Done(); bar.Wait(); e.pred.AddPartition(pp) }()
+		}
+		go func() { defer wg.Done(); bar.Wait(); e.s().SetLimit(next) }()
+		wg.Wait()
+		e.m.Parts = append(e.m.Parts, np)
+		ok := check("AddPartition-and-SetLimit", np)
+		// remove it again
+		if e.kind == "lookup" {
+			e.look.RemovePartition("zz")
+			delete(e.lparts, np)
+		} else {
+			// predicate partitions are removed by a matching context; "zz" never matches, so rebuild the list without it
+			e.pred.RemovePartitionsMatching(ctxKey("__none__"))
+			delete(e.pparts, np)
+		}
+		e.m.Parts = e.m.Parts[:len(e.m.Parts)-1]
+		if e.kind == "predicate" {
+			// no by-name removal for predicates: start a fresh strategy every round instead
+			e2, d2 := build(lr)
+			for e2.kind != "predicate" {
+				e2, d2 = build(lr)
+			}
+			e, desc = e2, d2
+			den, used = 100, 0
+			for _, p := range e.m.Parts {
+				den = p.Den
+				used += p.Num
+			}
+			room = den - used
+			if den == 100 {
+				room--
+			}
+			if room < 1 {
+				break
+			}
+		}
+		if !ok {
+			return
+		}
+		rt.Count("storm_add_vs_setlimit_rounds", 1)
+	}
+	rt.Count("storm_cases", 1)
+	rt.Distinct(fmt.Sprintf("storm|%v|%d", desc, seeds[0]))
 }
